@@ -257,6 +257,10 @@ def default_matcher(known: dict, v: Violation) -> bool:
 
 def write_evidence(prop: str, ev: dict):
     d = os.path.join(VERIF, "evidence")
+    alt = os.environ.get("VERIF_REPO")
+    if alt and os.path.realpath(alt) != os.path.realpath("/repo"):
+        # a run against a scratch copy of the repository (seeded or benign change): never overwrite the evidence of the tree itself
+        d = os.path.join(workdir(), "evidence-scratch")
     os.makedirs(d, exist_ok=True)
     path = os.path.join(d, f"{prop}.json")
     tmp = path + f".tmp{os.getpid()}"
